@@ -130,8 +130,8 @@ impl <T: ArrayElement> ArrayReorder<T> for Array<T> {
                             .flat_map(|arr| arr.elements.reverse_ext())
                             .collect::<Vec<T>>()
                         } else { flatten
-                            .split(self_shape[ax], None)?.into_iter()
-                            .map(|i| i.reshape(&self.shape.clone().remove_at(ax)))
+                            .split(self_shape[0], None)?.into_iter()
+                            .map(|i| i.reshape(&self.shape.clone().remove_at(0)))
                             .map(|i| i.flip(Some(vec![ax.to_isize() - 1])))
                             .collect::<Vec<Result<Self, _>>>()
                             .has_error()?.into_iter()
@@ -199,8 +199,8 @@ impl <T: ArrayElement> ArrayReorder<T> for Array<T> {
                             tmp_item
                         }).collect()
                     } else { flatten
-                        .split(self.shape[ax], None)?.into_iter()
-                        .map(|i| i.reshape(&self.shape.clone().remove_at(ax)))
+                        .split(self.shape[0], None)?.into_iter()
+                        .map(|i| i.reshape(&self.shape.clone().remove_at(0)))
                         .map(|i| i.roll(vec![shifts[&ax]], Some(vec![ax.to_isize() - 1])))
                         .collect::<Vec<Result<Self, _>>>()
                         .has_error()?.into_iter()
